@@ -290,6 +290,10 @@ func describeHistory(h []string) string {
 		return "restarted-after-sigkill-after-idle-shard-flush"
 	case has("kill-during-flush"):
 		return "restarted-after-sigkill-during-flush"
+	case has(unreplTail):
+		return "restarted-after-sigkill-as-leader-with-unreplicated-log-tail"
+	case has(killBeforeApply):
+		return "restarted-after-sigkill-between-commit-index-save-and-apply"
 	case has("kill"):
 		return "restarted-after-sigkill"
 	case has("pause"):
